@@ -1346,3 +1346,42 @@ func (e *BadN5est) OnChange(f func(int)) { e.onChange = f }
 func (e *BadN5est) update(v int) {
 	go e.onChange(v)
 }
+
+// ---- Y3: Unbind tears down what Close tears down -----------------------------------------------------------------------------------
+
+type y3buf struct{ items []int }
+
+func (b *y3buf) Clear() { b.items = nil }
+
+type GoodY3jb struct {
+	interceptor.NoOp
+	buf   *y3buf
+	attrs map[int]interceptor.Attributes
+}
+
+func (g *GoodY3jb) UnbindRemoteStream(_ *interceptor.StreamInfo) {
+	g.buf.Clear()
+	clear(g.attrs)
+}
+
+func (g *GoodY3jb) Close() error {
+	g.buf.Clear()
+	clear(g.attrs)
+	return nil
+}
+
+type BadY3jb struct {
+	interceptor.NoOp
+	buf   *y3buf
+	attrs map[int]interceptor.Attributes
+}
+
+func (g *BadY3jb) UnbindRemoteStream(_ *interceptor.StreamInfo) {
+	g.buf.Clear()
+}
+
+func (g *BadY3jb) Close() error {
+	g.buf.Clear()
+	clear(g.attrs)
+	return nil
+}
